@@ -235,6 +235,16 @@ def work(ctx, tier):
             compare(ctx, sc, ents, stats)
             ctx.add_hash("nontrivial", sc)
             ctx.inc("retryless_breaker_scenarios")
+            if last[0] != "ok":
+                # the same with an attempt-end hook that fails: whatever the single attempt ended with, the hook is told about it by
+                # call() and by execute() alike, so its failure surfaces (or does not) in both
+                import copy
+
+                sc2 = copy.deepcopy(sc)
+                sc2["place"]["hooks"] = "call"
+                sc2["fault"] = {"kind": "cb", "cb": "aend", "at": 0, "exc": "TypeError"}
+                compare(ctx, sc2, ents, stats)
+                ctx.inc("retryless_breaker_scenarios_with_a_failing_end_hook")
     for i, sc in enumerate(gen.sweep_scenarios(max_len=3, stride=16 if tier == "quick" else 2)):
         if i % ctx.nshards != ctx.shard:
             continue
